@@ -83,7 +83,20 @@ def main():
     def is_int(v):
         return isinstance(v, int) and not isinstance(v, bool)
 
-    def variants_of(sample):
+    ENUM_LIKE = ("mode", "reduction", "dtype", "layout", "memory_format", "format", "device", "approximate")
+
+    def enum_like_positions(fn):
+        """positional argument slots (index into sample.args) whose parameter in the torch_lib function is an enumeration
+        code (interpolation_mode, padding_mode, reduction, dtype, ...): negating such an integer is not a meaningful call
+        (ATen casts it to a C++ enum unchecked), so the `negated` perturbation leaves those slots alone."""
+        try:
+            import inspect
+            names = list(inspect.signature(getattr(fn, "function", None) or getattr(fn, "func", None) or fn).parameters)
+        except Exception:
+            return None
+        return {i - 1 for i, n in enumerate(names) if i >= 1 and any(e in n.lower() for e in ENUM_LIKE)}, names
+
+    def variants_of(sample, fn=None):
         """Generic perturbations of one OpInfo sample: [(tag, input, args, kwargs)].  Every variant is judged against torch
         eager on the SAME perturbed arguments (torch refusing it just drops the variant), so any of them is a legitimate
         differential case; they aim at what sample lists tend to leave out: negative dims, extents that differ from each
@@ -116,6 +129,7 @@ def main():
                 out.append(("distinct-extents", x2, args, kw))
         # sequences of equal ints -> last entry changed; positive ints -> negated (keyword and positional arguments)
         slots = [("kw:" + k, v) for k, v in kw.items()] + [(f"arg{i}", v) for i, v in enumerate(args)]
+        enum_info = enum_like_positions(fn) if fn is not None else None
         for name, v in slots:
             def put(val, name=name):
                 if name.startswith("kw:"):
@@ -130,6 +144,11 @@ def main():
                     if v[-1] + delta >= 0:
                         out.append((f"unequal-entries:{name}:{delta:+d}",) + put(type(v)(list(v[:-1]) + [v[-1] + delta])))
             elif is_int(v) and v >= 1 and name[3:] not in DIM_KEYS:
+                if name.startswith("kw:") and any(e in name[3:].lower() for e in ENUM_LIKE):
+                    continue
+                if name.startswith("arg"):
+                    if enum_info is None or int(name[3:]) in enum_info[0]:
+                        continue               # unknown signature or an enumeration code: not negated
                 out.append((f"negated:{name}",) + put(-v))
         return out
 
@@ -200,7 +219,7 @@ def main():
                     for si, smp in enumerate(samples):
                         if listed[si]:
                             continue
-                        for tag, x2, a2_, k2_ in variants_of(smp):
+                        for tag, x2, a2_, k2_ in variants_of(smp, fn):
                             kind = tag.rsplit(":", 1)[0] if tag.startswith("unequal") else tag
                             cands.setdefault(kind, []).append((si, tag, x2, a2_, k2_))
 
